@@ -47,6 +47,7 @@ def target (s : State) : Op → Target
     | some f => worldTarget f.kind f.id s.world
   | .wtag kind id _ _ => worldTarget kind id s.world
   | .wrm kind id _ => worldTarget kind id s.world
+  | .fromWorld _ _ => .fresh
 
 /-- everything except the target keeps its position, its struct and what is observed of it -/
 def Isolated (s : State) (t : Target) (s' : State) : Prop :=
@@ -231,6 +232,22 @@ theorem step_ok {s s' : State} {op : Op} (hs : Sep s) (h : step s op = some s') 
         exact ok_set_world hs he
           (mutate_step (st' := r.1) (f' := r.2) hr (hs.valid1 e (List.mem_of_getElem? he)))
 
+  | fromWorld kind id =>
+    simp only [step, target] at h ⊢
+    cases hw : findEntry kind id s.world with
+    | none => rw [hw] at h; cases h
+    | some w =>
+      rw [hw] at h
+      simp only at h
+      cases he : s.world[w]? with
+      | none => rw [he] at h; cases h
+      | some e =>
+        rw [he] at h
+        simp only [Option.map_eq_some_iff] at h
+        obtain ⟨r, hr, hh⟩ := h
+        subst hh
+        exact ok_push_var hs (fromWorld_step (st' := r.1) (c := r.2) hr)
+
 /-- separation is an invariant of every history -/
 theorem run_ok {ops : List Op} : ∀ {s s' : State}, Sep s → run s ops = some s' → Sep s' := by
   induction ops with
@@ -353,6 +370,298 @@ theorem clone_independent {s s1 s2 : State} {i k : Nat} {ms : List Mut} (hs : Se
     worldView s2 = worldView s1 ∧
     ∀ j x, j ≠ k → s1.vars[j]? = some x → s2.vars[j]? = some x ∧ view s2.st x = view s1.st x :=
   (muts_isolated (step_ok hs hc).1 hmut).2
+
+/-- **`from_world_disjoint`**: the feature `NewFeatureFromWorld` constructs from a world's feature (every
+kind) is made of newly allocated arrays only: it shares no backing array with the world's feature (nor with
+anything else), and constructing it leaves every existing array untouched. -/
+theorem from_world_disjoint {st st' : Store} {w c : Feat} (h : fromWorld st w = some (st', c))
+    (hv : Valid st w) :
+    (∀ a ∈ fp c, st.length ≤ a ∧ a < st'.length) ∧ Disj c w ∧
+    (∀ a, a < st.length → st'[a]? = st[a]?) ∧ view st' w = view st w := by
+  have hs := fromWorld_step h
+  refine ⟨fun a ha => ⟨?_, hs.valid a ha⟩, disj_fresh hs hv, fun a ha => hs.frame a ha (by simp),
+    view_frame hs hv (by simp)⟩
+  rcases hs.sub a ha with h' | h'
+  · simp at h'
+  · exact h'
+
+/-- … and so, in any history, mutating the copy never changes the world, nor the other way round -/
+theorem from_world_independent {s s1 s2 : State} {kind : Kind} {id : String} {k : Nat} {ms : List Mut}
+    (hs : Sep s) (hc : step s (.fromWorld kind id) = some s1)
+    (hmut : run s1 (ms.map (Op.upd k)) = some s2) : worldView s2 = worldView s1 :=
+  (muts_isolated (step_ok hs hc).1 hmut).2.1
+
+example : ∃ s s1 s2, run {} [.new .area "a1" 2, .upd 0 (.setPathIDs 0 ["p10", "p12"]),
+      .upd 0 (.setPolygon 1 "P1"), .upd 0 (.addTag "k" "v"), .add 0] = some s ∧
+    step s (.fromWorld .area "a1") = some s1 ∧
+    run s1 ([Mut.setPathID 0 1 "p11", .setTag "k" "w"].map (Op.upd 1)) = some s2 ∧
+    (s1.vars[1]?.map (view s1.st)) = (s1.world[0]?.map (view s1.st)) := by
+  refine ⟨_, _, _, rfl, rfl, rfl, by decide⟩
+
+/-! ## `MergeFrom` gives the receiver the value of its argument -/
+
+/-- the situation `MergeFrom` is used in: receiver `e` and argument `o` are different owners of the same
+kind (`Sep`), the receiver's slices lie over different arrays, and no member of `o` is an empty non-nil
+path list (`SetPathIDs(i, []FeatureID{})` — see `merge_empty_path_list_counterexample`) -/
+structure MergeOK (st : Store) (e o : Feat) : Prop where
+  valid_e : Valid st e
+  valid_o : Valid st o
+  disj : Disj e o
+  own : (fp e).Nodup
+  proper_e : Proper e
+  proper_o : Proper o
+  kind : e.kind = o.kind
+  paths : ∀ s ∈ o.ids, s ≠ none → 0 < slen s
+  /-- the argument is well-formed: all its slices lie within their arrays -/
+  readable : (view st o).isSome = true
+
+instance (st : Store) (e o : Feat) : Decidable (MergeOK st e o) :=
+  if h : Valid st e ∧ Valid st o ∧ (∀ a ∈ fp e, a ∉ fp o) ∧ (fp e).Nodup ∧ Proper e ∧ Proper o ∧
+      e.kind = o.kind ∧ (∀ s ∈ o.ids, s ≠ none → 0 < slen s) ∧ (view st o).isSome = true
+  then isTrue ⟨h.1, h.2.1, h.2.2.1, h.2.2.2.1, h.2.2.2.2.1, h.2.2.2.2.2.1, h.2.2.2.2.2.2.1,
+    h.2.2.2.2.2.2.2.1, h.2.2.2.2.2.2.2.2⟩
+  else isFalse fun ok => h ⟨ok.valid_e, ok.valid_o, ok.disj, ok.own, ok.proper_e, ok.proper_o, ok.kind,
+    ok.paths, ok.readable⟩
+
+/-- **`merge_from_equal`**: after `e.MergeFrom(o)` — every feature kind; receiver shorter than, as long as,
+or longer than the argument in tags / members / polygons / path ids / keys and values; nil (polygon)
+members included — the receiver is observably equal to the argument, and the argument is unchanged. -/
+theorem merge_from_equal {st st' : Store} {e o e' : Feat} (h : mergeFrom st e o = some (st', e'))
+    (ok : MergeOK st e o) : view st' e' = view st o ∧ view st' o = view st o := by
+  have hstep := mergeFrom_step h ok.valid_e
+  refine ⟨?_, view_frame hstep ok.valid_o (fun a ha he => ok.disj a he ha)⟩
+  have hdo : ∀ {s : Option Slice}, (∀ a ∈ addrs s, a ∈ fp o) → ∀ {t : Option Slice},
+      (∀ a ∈ addrs t, a ∈ fp e) → ∀ a ∈ addrs s, a < st.length ∧ a ∉ addrs t :=
+    fun hs _ ht a ha => ⟨ok.valid_o a (hs a ha), fun hm => ok.disj a (ht a hm) (hs a ha)⟩
+  have hpe := ok.proper_e
+  have hpo := ok.proper_o
+  have hown := ok.own
+  unfold Proper at hpe hpo
+  unfold mergeFrom at h
+  cases hk : e.kind with
+  | generic =>
+    have hko : o.kind = .generic := by rw [← ok.kind, hk]
+    rw [hk] at h hpe
+    rw [hko] at hpo
+    simp only at h hpe hpo
+    obtain ⟨e1, e2, e3, e4, e5, e6⟩ := hpe
+    obtain ⟨o1, o2, o3, o4, o5, o6⟩ := hpo
+    cases hc : cloneMake st o.tags with
+    | none => rw [hc] at h; cases h
+    | some c =>
+      rw [hc] at h
+      simp only at h
+      cases hs : cells c.1 c.2 with
+      | none => rw [hs] at h; cases h
+      | some src =>
+        rw [hs] at h
+        simp only at h
+        cases ht : mergeInto c.1 e.tags src with
+        | none => rw [ht] at h; cases h
+        | some t =>
+          rw [ht] at h
+          cases h
+          have hsrc : cells st o.tags = some src := by
+            rw [← (cloneMake_cells (st' := c.1) (s' := c.2) hc).1]; exact hs
+          simp only [view, mergeInto_cells ht, hsrc, e1, e2, e3, e4, e5, e6, o1, o2, o3, o4, o5, o6, hko,
+            viewIds, cells_none]
+  | area =>
+    have hko : o.kind = .area := by rw [← ok.kind, hk]
+    rw [hk] at h hpe
+    rw [hko] at hpo
+    simp only at h hpe hpo
+    obtain ⟨e3, e4, e5, e6⟩ := hpe
+    obtain ⟨o3, o4, o5, o6⟩ := hpo
+    split at h
+    · rename_i hne; exact absurd hko hne
+    · cases hc : cells st o.tags with
+      | none => rw [hc] at h; cases h
+      | some src =>
+        rw [hc] at h
+        simp only at h
+        cases ht : mergeInto st e.tags src with
+        | none => rw [ht] at h; cases h
+        | some t =>
+          rw [ht] at h
+          simp only at h
+          cases hm : mergeAreaMembers t.1 e o with
+          | none => rw [hm] at h; cases h
+          | some r =>
+            rw [hm] at h
+            cases h
+            have htstep := mergeInto_step (st' := t.1) (d' := t.2) ht
+            -- the receiver's own arrays: tags | ids … | polygons, all different
+            have hfp : fp e = addrs e.tags ++ addrs e.polygons ++ e.ids.flatMap addrs := by
+              simp [fp, e3, e4, e5, addrs]
+            rw [hfp, List.append_assoc] at hown
+            have hE : ∀ a ∈ e.ids.flatMap addrs ++ addrs e.polygons, a ∈ fp e := by
+              intro a ha
+              rw [hfp]
+              rcases List.mem_append.mp ha with h' | h'
+              · exact List.mem_append_right _ h'
+              · exact List.mem_append_left _ (List.mem_append_right _ h')
+            have hEnd : (e.ids.flatMap addrs ++ addrs e.polygons).Nodup :=
+              (List.perm_append_comm.nodup_iff).mp (List.nodup_append.mp hown).2.1
+            have htagsE : ∀ a ∈ addrs e.tags, a ∉ e.ids.flatMap addrs ++ addrs e.polygons := by
+              intro a ha hm'
+              have := (List.nodup_append.mp hown).2.2 a ha a
+                (by rcases List.mem_append.mp hm' with h' | h'
+                    · exact List.mem_append_right _ h'
+                    · exact List.mem_append_left _ h') rfl
+              exact this
+            have hO : ∀ a ∈ o.ids.flatMap addrs ++ addrs o.polygons, a ∈ fp o := by
+              intro a ha
+              simp only [List.mem_append, List.mem_flatMap] at ha
+              rcases ha with ⟨x, hx, hax⟩ | ha
+              · exact mem_fp.mpr (Or.inr (Or.inr (Or.inr (Or.inr (Or.inr ⟨x, hx, hax⟩)))))
+              · exact mem_fp.mpr (Or.inr (Or.inl ha))
+            -- what is observed of `o`, before and after the tags were copied
+            cases hiv : viewIds st o.ids with
+            | none =>
+              have := ok.readable
+              simp [view, hc, hiv] at this
+            | some iv =>
+              cases hpv : cells st o.polygons with
+              | none =>
+                have := ok.readable
+                simp [view, hc, hiv, hpv] at this
+              | some pv =>
+                have hiv' : viewIds t.1 o.ids = some iv := by
+                  rw [viewIds_step_other htstep (fun a ha =>
+                    ⟨ok.valid_o a (hO a (List.mem_append_left _ ha)), fun hm' =>
+                      ok.disj a (by simp [mem_fp, hm']) (hO a (List.mem_append_left _ ha))⟩)]
+                  exact hiv
+                have hpv' : cells t.1 o.polygons = some pv := by
+                  rw [cells_step_other htstep (fun a ha =>
+                    ⟨ok.valid_o a (hO a (List.mem_append_right _ ha)), fun hm' =>
+                      ok.disj a (by simp [mem_fp, hm']) (hO a (List.mem_append_right _ ha))⟩)]
+                  exact hpv
+                obtain ⟨r1, r2⟩ := mergeAreaMembers_view (st' := r.1) (ids' := r.2.1) (p' := r.2.2) hm
+                  (fun a ha => Nat.lt_of_lt_of_le (ok.valid_e a (hE a ha)) htstep.grow) hEnd
+                  (fun a ha => ⟨Nat.lt_of_lt_of_le (ok.valid_o a (hO a ha)) htstep.grow,
+                    fun hm' => ok.disj a (hE a hm') (hO a ha)⟩) ok.paths hiv' hpv'
+                have hmstep := mergeAreaMembers_step (st' := r.1) (ids' := r.2.1) (p' := r.2.2) hm
+                  (fun a ha => Nat.lt_of_lt_of_le (ok.valid_e a (hE a ha)) htstep.grow)
+                have htags : cells r.1 t.2 = some src := by
+                  rw [cells_step_other hmstep (fun a ha => ⟨htstep.valid a ha, fun hm' => by
+                    rcases htstep.sub a ha with h' | h'
+                    · exact htagsE a h' hm'
+                    · have := ok.valid_e a (hE a hm'); omega⟩)]
+                  exact mergeInto_cells ht
+                simp only [view, htags, r1, r2, hc, hiv, hpv, e3, e4, e5, e6, o3, o4, o5, o6, hko,
+                  cells_none]
+  | relation =>
+    have hko : o.kind = .relation := by rw [← ok.kind, hk]
+    rw [hk] at h hpe
+    rw [hko] at hpo
+    simp only at h hpe hpo
+    obtain ⟨e1, e2, e4, e5, e6⟩ := hpe
+    obtain ⟨o1, o2, o4, o5, o6⟩ := hpo
+    split at h
+    · rename_i hne; exact absurd hko hne
+    · cases hc : cells st o.tags with
+      | none => rw [hc] at h; cases h
+      | some src =>
+        rw [hc] at h
+        simp only at h
+        cases ht : mergeInto st e.tags src with
+        | none => rw [ht] at h; cases h
+        | some t =>
+          rw [ht] at h
+          simp only at h
+          cases hms : cells t.1 o.members with
+          | none => rw [hms] at h; cases h
+          | some ms =>
+            rw [hms] at h
+            simp only at h
+            cases hm : mergeInto t.1 e.members ms with
+            | none => rw [hm] at h; cases h
+            | some m =>
+              rw [hm] at h
+              cases h
+              have htstep := mergeInto_step (st' := t.1) (d' := t.2) ht
+              have hmstep := mergeInto_step (st' := m.1) (d' := m.2) hm
+              have hfp : fp e = addrs e.tags ++ addrs e.members := by simp [fp, e1, e2, e4, e5, addrs]
+              rw [hfp] at hown
+              have hmem : cells st o.members = some ms := by
+                rw [← cells_step_other htstep (hdo (s := o.members) (by intro a ha; simp [mem_fp, ha])
+                  (t := e.tags) (by intro a ha; simp [mem_fp, ha]))]
+                exact hms
+              have htags : cells m.1 t.2 = some src := by
+                rw [cells_step_other hmstep (fun a ha => ⟨htstep.valid a ha, fun hm' => by
+                  rcases htstep.sub a ha with h' | h'
+                  · exact (List.nodup_append.mp hown).2.2 a h' a hm' rfl
+                  · have := ok.valid_e a (by simp [mem_fp, hm']); omega⟩)]
+                exact mergeInto_cells ht
+              simp only [view, htags, mergeInto_cells hm, hc, hmem, e1, e2, e4, e5, e6, o1, o2, o4, o5, o6,
+                hko, viewIds, cells_none]
+  | collection =>
+    have hko : o.kind = .collection := by rw [← ok.kind, hk]
+    rw [hk] at h hpe
+    rw [hko] at hpo
+    simp only at h hpe hpo
+    obtain ⟨e1, e2, e3⟩ := hpe
+    obtain ⟨o1, o2, o3⟩ := hpo
+    split at h
+    · rename_i hne; exact absurd hko hne
+    · cases hc : cells st o.tags with
+      | none => rw [hc] at h; cases h
+      | some src =>
+        rw [hc] at h
+        simp only at h
+        cases ht : mergeInto st e.tags src with
+        | none => rw [ht] at h; cases h
+        | some t =>
+          rw [ht] at h
+          simp only at h
+          cases hks : cloneKeepNil t.1 o.keys with
+          | none => rw [hks] at h; cases h
+          | some ks =>
+            rw [hks] at h
+            simp only at h
+            cases hvs : cloneKeepNil ks.1 o.values with
+            | none => rw [hvs] at h; cases h
+            | some vs =>
+              rw [hvs] at h
+              cases h
+              have htstep := mergeInto_step (st' := t.1) (d' := t.2) ht
+              have hkstep := cloneKeepNil_step (st' := ks.1) (s' := ks.2) hks
+              have hvstep := cloneKeepNil_step (st' := vs.1) (s' := vs.2) hvs
+              have hokeys := hdo (s := o.keys) (by intro a ha; simp [mem_fp, ha])
+                (t := e.tags) (by intro a ha; simp [mem_fp, ha])
+              have hovals := hdo (s := o.values) (by intro a ha; simp [mem_fp, ha])
+                (t := e.tags) (by intro a ha; simp [mem_fp, ha])
+              have htags : cells vs.1 t.2 = some src := by
+                rw [cells_pure hvstep (fun a ha => Nat.lt_of_lt_of_le (htstep.valid a ha) hkstep.grow),
+                  cells_pure hkstep htstep.valid]
+                exact mergeInto_cells ht
+              have hkeys : cells vs.1 ks.2 = cells st o.keys := by
+                rw [cells_pure hvstep hkstep.valid, cloneKeepNil_cells hks, cells_step_other htstep hokeys]
+              have hvals : cells vs.1 vs.2 = cells st o.values := by
+                rw [cloneKeepNil_cells hvs,
+                  cells_pure hkstep (fun a ha => Nat.lt_of_lt_of_le (hovals a ha).1 htstep.grow),
+                  cells_step_other htstep hovals]
+              simp only [view, htags, hkeys, hvals, hc, e1, e2, e3, o1, o2, o3, hko, viewIds, cells_none]
+
+/-- non-vacuity: a one-polygon area receives an area with a two-path member, a polygon member and more tags -/
+example :
+    let st : Store := [[.pair "a" "1"], [.scalar "P1"],
+                       [.pair "a" "2", .pair "b" "3"], [.scalar "p10", .scalar "p11"], [.scalar "", .scalar "P2"]]
+    let e : Feat := { kind := .area, id := "a1", tags := some ⟨0, 1⟩, ids := [none], polygons := some ⟨1, 1⟩ }
+    let o : Feat := { kind := .area, id := "a1", tags := some ⟨2, 2⟩, ids := [some ⟨3, 2⟩, none],
+                      polygons := some ⟨4, 2⟩ }
+    MergeOK st e o ∧ (mergeFrom st e o).isSome = true := by decide
+
+/-- the one shape the hypothesis `MergeOK.paths` excludes: an EMPTY non-nil path list (`SetPathIDs(i,
+[]FeatureID{})`) merged into a receiver whose member is nil stays nil (`nil[0:0]`), so `PathIDs(i)` reports
+"no paths" for the receiver and "zero paths" for the argument.  A member with zero paths is not a valid
+area member; recorded as a quirk of the code, not as a defect. -/
+theorem merge_empty_path_list_counterexample :
+    let st : Store := [[.scalar "P1"], [], [.scalar ""]]
+    let e : Feat := { kind := .area, id := "a1", ids := [none], polygons := some ⟨0, 1⟩ }
+    let o : Feat := { kind := .area, id := "a1", ids := [some ⟨1, 0⟩], polygons := some ⟨2, 1⟩ }
+    ∃ st' e', mergeFrom st e o = some (st', e') ∧ view st' e' ≠ view st o := by
+  refine ⟨_, _, rfl, by decide⟩
 
 /-! ## the code as it was: the three sharing defects (fixed by `fixes/C38-*.patch`) -/
 
